@@ -154,16 +154,31 @@ fn opts_qx_both(_: &mut Rng) -> Vec<Opts> {
 fn opts_presets(_: &mut Rng) -> Vec<Opts> {
     vec![Opts::quick_xml(), Opts::quick_xml().sorted(true), Opts::serde_xml_rs(), Opts::serde_xml_rs().sorted(true)]
 }
+fn rand_string(rng: &mut Rng, alphabet: &[char], max: usize) -> String {
+    let n = rng.below(max + 1);
+    (0..n).map(|_| *rng.pick(alphabet)).collect()
+}
 fn rand_ident(rng: &mut Rng) -> String {
-    rng.pick(&["$text", "$value", "text", "#text", "body", "", "@", "attr_", "_", "x-"]).to_string()
+    if rng.chance(1, 2) {
+        rng.pick(&["$text", "$value", "text", "#text", "body", "", "@", "attr_", "_", "x-", " ", "$", "Text", "text_content"]).to_string()
+    } else {
+        rand_string(rng, &['$', '@', '#', 't', 'e', 'x', '_', '-', ' ', ':', 'T', '1', 'я'], 6)
+    }
+}
+fn rand_derive(rng: &mut Rng) -> String {
+    if rng.chance(1, 2) {
+        rng.pick(&["Serialize, Deserialize", "", "Debug, Clone", "Debug", "serde::Deserialize, PartialEq", "A(B), C", " ", " Debug", "Debug ", "\tClone", "  ", "Debug,Clone , "]).to_string()
+    } else {
+        rand_string(rng, &['D', 'e', 'b', 'u', 'g', ',', ' ', ' ', '(', ')', ':', '_', '\t', 'я', '<', '>', '#', '[', ']'], 12)
+    }
 }
 fn opts_variants(rng: &mut Rng) -> Vec<Opts> {
-    let derives = ["Serialize, Deserialize", "", "Debug, Clone", "Debug", "serde::Deserialize, PartialEq", "A(B), C"];
     let mut v = vec![];
+    let (t, a, d) = (rand_ident(rng), rand_ident(rng), rand_derive(rng));
     for sorted in [false, true] {
         v.push(Opts::quick_xml().sorted(sorted));
         v.push(Opts::serde_xml_rs().sorted(sorted));
-        v.push(Opts { text_identifier: rand_ident(rng), attribute_prefix: rand_ident(rng), derive: rng.pick(&derives).to_string(), sort_by_name: sorted });
+        v.push(Opts { text_identifier: t.clone(), attribute_prefix: a.clone(), derive: d.clone(), sort_by_name: sorted });
     }
     v
 }
